@@ -1,1 +1,307 @@
-"""rules for c10 (under construction)"""
+"""C10 - coarse levels never change the fine fixed point (FAS consistency; structural clauses)."""
+
+import ast
+import re
+
+from ..cfg import FuncCFG, walk_no_nested
+from ..model import AnalysisError
+from ..norm import Normalizer, Affine, to_affine
+from ..runner import rule
+from .. import controllers as ct
+
+BT = 'pySDC/core/base_transfer.py'
+TC = 'pySDC/implementations/transfer_classes/'
+SIBS = [(BT, 'BaseTransfer'), (TC + 'BaseTransfer_mass.py', 'base_transfer_mass'), (TC + 'BaseTransferMPI.py', 'base_transfer_MPI')]
+
+F, G = 'self.fine', 'self.coarse'
+MF, MG = f'{F}.sweep.coll.num_nodes', f'{G}.sweep.coll.num_nodes'
+
+
+def _aff(s):
+    return to_affine(ast.parse(s, mode='eval').body)
+
+
+def _norm(repo, rel, cn, meth):
+    fn = repo.func(rel, f'{cn}.{meth}')
+    return fn, Normalizer(fn, inline_scalars=False)
+
+
+def _row_sum(N, target, mat):
+    """collect  target (=|+=) Σ mat[row, col]·vec[col]  -> (row affine, vector base name, merged col interval [lo, hi], signs)
+
+    handles the peeled form `X = M[r,0]*v[0]; for m in 1..: X += M[r,m]*v[m]` and the plain double loop."""
+    cs = [c for c in N.contribs if c.target == target and c.terms and any(any(f.startswith(mat + '[') for f in fac) for _, fac in c.terms)]
+    ivals, rows, vecs, signs, ops = [], set(), set(), set(), []
+    for c in cs:
+        for sgn, fac in c.terms:
+            m = [f for f in fac if f.startswith(mat + '[')]
+            v = [f for f in fac if not f.startswith(mat + '[')]
+            if len(m) != 1 or len(v) != 1:
+                return None
+            mm = re.fullmatch(re.escape(mat) + r'\[(.+), (.+)\]', m[0])
+            vm = re.fullmatch(r'(\w+)\[(.+)\]', v[0])
+            if not mm or not vm:
+                return None
+            row, col, vcol = _aff(mm.group(1)), _aff(mm.group(2)), _aff(vm.group(2))
+            if col != vcol:
+                return {'error': f'vector index {vm.group(2)} differs from the matrix column {mm.group(2)}'}
+            lo = hi = col
+            for l in reversed(c.loops):
+                if l.kind == 'range' and l.var in col.coeffs:
+                    lo, hi = col.subst(l.var, l.lo), col.subst(l.var, l.hi)
+                    break
+            ivals.append((lo, hi))
+            rows.add(str(row))
+            vecs.add(vm.group(1))
+            signs.add(sgn)
+            ops.append(c.op)
+    if not ivals:
+        return None
+    # merge adjacent intervals
+    ivals.sort(key=lambda p: (p[0].const, str(p[0])))
+    lo, hi = ivals[0]
+    for a, b in ivals[1:]:
+        if a == hi + Affine(1):
+            hi = b
+        else:
+            return {'error': f'column intervals {[(str(x), str(y)) for x, y in ivals]} are not contiguous'}
+    return {'rows': rows, 'vec': vecs, 'lo': lo, 'hi': hi, 'signs': signs, 'ops': ops, 'contribs': cs}
+
+
+def _order(N, *preds):
+    """indices (in contribution order) of the first contribution satisfying each predicate; None if missing"""
+    out = []
+    for p in preds:
+        idx = [i for i, c in enumerate(N.contribs) if p(c)]
+        out.append(idx)
+    return out
+
+
+@rule('C10', 'C10.R1', 'BaseTransfer.restrict: tau_c = Rcoll R(dt Q_f F_f) - dt Q_c F_c(R u) (+ Rcoll R tau_f); coarse f from the restricted u; uold/fold are final copies', floor=12)
+def r1(ctx, R):
+    repo = ctx.repo
+    fn, N = _norm(repo, BT, 'BaseTransfer', 'restrict')
+    w = f'{BT}:BaseTransfer.restrict'
+    R.fn(w)
+    C = N.contribs
+    def one(pred, what):
+        xs = [c for c in C if pred(c)]
+        return xs
+
+    # (b) spatial restriction of every fine node value
+    ru = one(lambda c: c.rhs == f'self.space_transfer.restrict({F}.u[i1])' and re.fullmatch(r'\w+\[i1 - 1\]', c.target), 'R(F.u[m])')
+    ok = len(ru) == 1 and str(ru[0].loops[0].hi) == MF
+    R.check(ok, 'restrict :: every fine node value is restricted in space', w, f'tmp[m-1] = space.restrict(F.u[m]) for m = 1..{MF}', [c.describe() for c in ru])
+    tmpu = ru[0].target.split('[')[0] if ru else 'tmp_u'
+    u0 = one(lambda c: c.target == f'{G}.u[0]', '')
+    R.check(len(u0) == 1 and u0[0].rhs == f'self.space_transfer.restrict({F}.u[0])', 'restrict :: coarse u[0] is the restricted fine u[0]', w, 'G.u[0] = space.restrict(F.u[0])', [c.describe() for c in u0])
+    # (c) collocation restriction with the full row of Rcoll
+    rs = _row_sum(N, f'{G}.u[i1]', 'self.Rcoll')
+    ok = rs is not None and 'error' not in rs and rs['rows'] == {'i1-1'} and rs['vec'] == {tmpu} and rs['lo'] == Affine(0) and rs['hi'] == Affine(-1, {MF: 1}) and rs['signs'] == {1} and rs['ops'].count('=') <= 1
+    R.check(ok, 'restrict :: G.u[n] = sum over the FULL row n of Rcoll times the restricted fine values', w, f'columns 0..{MF}-1, row n-1, vector index = column', rs if not rs or 'error' in rs else {k: str(v) for k, v in rs.items() if k != 'contribs'})
+    # (d) coarse f re-evaluated from the restricted u at coarse node times
+    f0 = one(lambda c: c.target == f'{G}.f[0]', '')
+    fn_ = one(lambda c: c.target == f'{G}.f[i1]', '')
+    ok = len(f0) == 1 and f0[0].rhs == f'{G}.prob.eval_f({G}.u[0], {G}.time)' and len(fn_) == 1 and fn_[0].rhs == f'{G}.prob.eval_f({G}.u[i1], {G}.time + {G}.dt * {G}.sweep.coll.nodes[i1 - 1])' and str(fn_[0].loops[0].hi) == MG
+    R.check(ok, 'restrict :: coarse f re-evaluated from the restricted u at the coarse node times', w, 'G.f[n] = PG.eval_f(G.u[n], G.time + G.dt*nodes_G[n-1]) for all n', [c.describe() for c in f0 + fn_])
+    # (e) integrals, in dependency order
+    tg = one(lambda c: c.rhs == f'{G}.sweep.integrate()', '')
+    tf = one(lambda c: c.rhs == f'{F}.sweep.integrate()', '')
+    idx = {id(c): i for i, c in enumerate(C)}
+    last_uf = max([idx[id(c)] for c in C if c.target.startswith(f'{G}.u[') or c.target.startswith(f'{G}.f[')] or [-1])
+    ok = len(tg) == 1 and len(tf) == 1 and all(idx[id(c)] < idx[id(tg[0])] for c in (fn_ + f0 + (rs['contribs'] if rs and 'contribs' in rs else [])))
+    R.check(ok, 'restrict :: coarse integral dt Q_c F_c(R u) is taken AFTER coarse u and f are final', w, 'tauG = G.sweep.integrate() after the last write to G.u / G.f', [c.describe() for c in tg])
+    tGn = tg[0].target if tg else 'tauG'
+    tFn = tf[0].target if tf else 'tauF'
+    # (f) fine integral restricted in space, then full row of Rcoll
+    rt = one(lambda c: c.rhs == f'self.space_transfer.restrict({tFn}[i1 - 1])', '')
+    ok = len(rt) == 1 and str(rt[0].loops[0].hi) == MF
+    R.check(ok, 'restrict :: the fine integral is restricted in space node by node', w, f'tmp[m] = space.restrict(tauF[m]) for m = 0..{MF}-1', [c.describe() for c in rt])
+    tmpt = rt[0].target.split('[')[0] if rt else 'tmp_tau'
+    tau_def = one(lambda c: c.target == f'{G}.tau[i1 - 1]' and c.op == '=', '')
+    ok = len(tau_def) == 1 and tau_def[0].terms is not None and len(tau_def[0].terms) == 2
+    tfg = None
+    if ok:
+        terms = dict((f[0], s) for s, f in tau_def[0].terms if len(f) == 1)
+        plus = [k for k, s in terms.items() if s > 0]
+        minus = [k for k, s in terms.items() if s < 0]
+        ok = len(plus) == 1 and minus == [f'{tGn}[i1 - 1]'] and re.fullmatch(r'\w+\[i1 - 1\]', plus[0]) is not None
+        tfg = plus[0].split('[')[0] if ok else None
+    R.check(ok, 'restrict :: tau[n] = + restricted fine integral[n] - coarse integral[n]', w, f'G.tau[n] = tauFG[n] - {tGn}[n]', [c.describe() for c in tau_def])
+    if tfg:
+        rs2 = _row_sum(N, f'{tfg}[i1 - 1]', 'self.Rcoll')
+        ok = rs2 is not None and 'error' not in rs2 and rs2['rows'] == {'i1-1'} and rs2['vec'] == {tmpt} and rs2['lo'] == Affine(0) and rs2['hi'] == Affine(-1, {MF: 1}) and rs2['signs'] == {1}
+        R.check(ok, 'restrict :: restricted fine integral uses the FULL row of Rcoll', w, f'columns 0..{MF}-1', rs2 if not rs2 or 'error' in rs2 else {k: str(v) for k, v in rs2.items() if k != 'contribs'})
+    # (h) inherited tau on three levels
+    rs3 = _row_sum(N, f'{G}.tau[i1 - 1]', 'self.Rcoll')
+    inh = one(lambda c: c.rhs == f'self.space_transfer.restrict({F}.tau[i1 - 1])', '')
+    ok = rs3 is not None and 'error' not in rs3 and rs3['ops'] and all(o == '+=' for o in rs3['ops']) and rs3['signs'] == {1} and rs3['lo'] == Affine(0) and rs3['hi'] == Affine(-1, {MF: 1}) and rs3['rows'] == {'i1-1'}
+    ok = ok and all(f'{F}.tau[0] is not None' in c.guards for c in rs3['contribs']) and len(inh) == 1 and f'{F}.tau[0] is not None' in inh[0].guards and rs3['vec'] == {inh[0].target.split('[')[0]}
+    R.check(ok, 'restrict :: an inherited fine tau is restricted (space, then full row of Rcoll) and ADDED to the coarse tau', w, f'if F.tau[0] is not None: G.tau[n] += sum_m Rcoll[n,m] * R(F.tau[m])', None if rs3 is None else {k: str(v) for k, v in rs3.items() if k != 'contribs'})
+    if rs3 and 'contribs' in rs3 and tau_def:
+        R.check(all(idx[id(c)] > idx[id(tau_def[0])] for c in rs3['contribs']), 'restrict :: inherited part is added after tau was defined', w, 'definition precedes +=', 'order')
+    # (i) uold/fold are copies made after u and f are final
+    uo = one(lambda c: c.target == f'{G}.uold[i1]', '')
+    fo = one(lambda c: c.target == f'{G}.fold[i1]', '')
+    ok = len(uo) == 1 and uo[0].rhs == f'{G}.prob.dtype_u({G}.u[i1])' and len(fo) == 1 and fo[0].rhs == f'{G}.prob.dtype_f({G}.f[i1])' and str(uo[0].loops[0].hi) == MG and str(fo[0].loops[0].hi) == MG
+    ok = ok and idx[id(uo[0])] > last_uf and idx[id(fo[0])] > last_uf
+    R.check(ok, 'restrict :: uold/fold are datatype copies of the final coarse u/f (reference for the coarse correction)', w, 'G.uold[n] = dtype_u(G.u[n]); G.fold[n] = dtype_f(G.f[n]) after the last write to G.u/G.f', [c.describe() for c in uo + fo])
+    un = one(lambda c: c.target == f'{G}.status.unlocked', '')
+    R.check(len(un) == 1 and un[0].rhs == 'True', 'restrict :: coarse level unlocked at the end', w, 'G.status.unlocked = True', [c.describe() for c in un])
+
+
+def _prolong_checks(R, repo, rel, cn, meth, exact=True):
+    fn, N = _norm(repo, rel, cn, meth)
+    w = f'{rel}:{cn}.{meth}'
+    R.fn(w)
+    C = N.contribs
+    FF = F
+    GG = G
+    # the prolonged quantity is the coarse CORRECTION
+    pro = [c for c in C if c.rhs and c.rhs.startswith('self.space_transfer.prolong(')]
+    want = {'u': rf'{re.escape(GG)}\.u\[(.+)\] - {re.escape(GG)}\.uold\[\1\]'}
+    if meth == 'prolong_f':
+        want['f'] = rf'{re.escape(GG)}\.f\[(.+)\] - {re.escape(GG)}\.fold\[\1\]'
+    got = {}
+    for c in pro:
+        arg = c.rhs[len('self.space_transfer.prolong('):-1]
+        for k, rx in want.items():
+            if re.fullmatch(rx, arg):
+                got[k] = c
+    R.check(set(got) == set(want) and len(pro) == len(want), f'{cn}.{meth} :: only the coarse correction (new - old) is prolonged', w, sorted(want), [c.rhs for c in pro])
+    # it is ADDED to the fine values
+    for k in want:
+        tgt = [c for c in C if re.match(rf'{re.escape(FF)}\.{k}\[', c.target) and c.op in ('=', '+=') and not (c.rhs or '').startswith(f'{FF}.prob.eval_f')]
+        ok = bool(tgt) and all(c.op == '+=' and all(s > 0 for s, _ in c.terms) for c in tgt)
+        if exact and ok and k in got:
+            rs = _row_sum(N, f'{F}.{k}[i1]', 'self.Pcoll')
+            ok = rs is not None and 'error' not in rs and rs['rows'] == {'i1-1'} and rs['vec'] == {got[k].target.split('[')[0]} and rs['lo'] == Affine(0) and rs['hi'] == Affine(-1, {MG: 1})
+        R.check(ok, f'{cn}.{meth} :: fine {k} is updated by += (full row of Pcoll times the prolonged correction)', w, f'F.{k}[n] += sum_m Pcoll[n,m] * P(G.{k}[m] - G.{k}old[m])', [c.describe()[:160] for c in tgt])
+    ev = [c for c in C if c.rhs and c.rhs.startswith(f'{FF}.prob.eval_f(')]
+    if meth == 'prolong':
+        upd = [i for i, c in enumerate(C) if re.match(rf'{re.escape(FF)}\.u\[', c.target) and c.op == '+=']
+        ok = len(ev) == 1 and re.match(rf'{re.escape(FF)}\.f\[', ev[0].target) and upd and C.index(ev[0]) > max(upd)
+        if ok and exact:
+            ok = ev[0].rhs == f'{F}.prob.eval_f({F}.u[i1], {F}.time + {F}.dt * {F}.sweep.coll.nodes[i1 - 1])' and str(ev[0].loops[0].hi) == MF
+        R.check(ok, f'{cn}.prolong :: fine f re-evaluated at every node after the update', w, 'F.f[n] = PF.eval_f(F.u[n], t_n) after F.u[n] += ..', [c.describe()[:160] for c in ev])
+    else:
+        R.check(not ev, f'{cn}.prolong_f :: f is prolonged, not re-evaluated', w, 'no eval_f call', [c.describe()[:100] for c in ev])
+
+
+@rule('C10', 'C10.R2', 'BaseTransfer.prolong / prolong_f: fine += Pcoll P(coarse - coarse_old); f re-evaluated (prolong) or prolonged as a difference (prolong_f)', floor=7)
+def r2(ctx, R):
+    _prolong_checks(R, ctx.repo, BT, 'BaseTransfer', 'prolong')
+    _prolong_checks(R, ctx.repo, BT, 'BaseTransfer', 'prolong_f')
+
+
+@rule('C10', 'C10.R3', 'sibling transfers (mass matrix, MPI) keep the shape: difference prolongation, inherited tau added under its guard, uold/fold copies, opposite signs of the two tau parts', floor=20)
+def r3(ctx, R):
+    repo = ctx.repo
+    for rel, cn in SIBS[1:]:
+        ci = repo.cls(rel, cn)
+        for meth in ('prolong', 'prolong_f'):
+            if meth in ci.methods:
+                if any(isinstance(s, ast.Raise) for s in walk_no_nested(ci.methods[meth])) and len(ci.methods[meth].body) <= 3:
+                    R.exc(f'{cn}.{meth} :: not implemented (raises)', f'{rel}:{cn}.{meth}', 'sibling refuses this mode')
+                    continue
+                _prolong_checks(R, repo, rel, cn, meth, exact=(cn != 'base_transfer_MPI'))
+        fn, N = _norm(repo, rel, cn, 'restrict')
+        w = f'{rel}:{cn}.restrict'
+        R.fn(w)
+        C = N.contribs
+        FF = F
+        GG = G
+        td = [c for c in C if re.match(rf'{re.escape(GG)}\.tau\[', c.target) and c.op == '=']
+        ok = len(td) == 1 and td[0].terms and len(td[0].terms) == 2 and sorted(s for s, _ in td[0].terms) == [-1, 1]
+        R.check(ok, f'{cn}.restrict :: tau is the DIFFERENCE of the restricted fine part and the coarse part', w, 'two terms of opposite sign', [c.describe()[:140] for c in td])
+        ti = [c for c in C if re.match(rf'{re.escape(GG)}\.tau\[', c.target) and c.op == '+=']
+        ok = len(ti) == 1 and all(s > 0 for s, _ in ti[0].terms) and any(re.fullmatch(rf'{re.escape(FF)}\.tau\[.+\] is not None', g) for g in ti[0].guards)
+        R.check(ok, f'{cn}.restrict :: inherited fine tau is added (+=) under its is-not-None guard', w, 'G.tau[..] += restricted F.tau under `F.tau[..] is not None`', [c.describe()[:140] for c in ti])
+        uo = [c for c in C if re.match(rf'{re.escape(GG)}\.uold\[', c.target)]
+        fo = [c for c in C if re.match(rf'{re.escape(GG)}\.fold\[', c.target)]
+        ok = len(uo) == 1 and re.fullmatch(rf'{re.escape(GG)}\.prob\.dtype_u\({re.escape(GG)}\.u\[.+\]\)', uo[0].rhs or '') and len(fo) == 1 and re.fullmatch(rf'{re.escape(GG)}\.prob\.dtype_f\({re.escape(GG)}\.f\[.+\]\)', fo[0].rhs or '')
+        if ok:
+            i_u = C.index(uo[0])
+            slot = re.search(r'\.u\[(.+)\]\)$', uo[0].rhs).group(1)
+            later = [c for c in C[i_u + 1:] if c.target == f'{GG}.u[{slot}]']
+            ok = not later
+        R.check(ok, f'{cn}.restrict :: uold/fold are datatype copies, taken after the copied slots are final', w, 'G.uold[n] = dtype_u(G.u[n]); G.fold[n] = dtype_f(G.f[n])', [c.describe()[:120] for c in uo + fo])
+        tg = [c for c in C if c.rhs == f'{GG}.sweep.integrate()']
+        fe = [c for c in C if re.match(rf'{re.escape(GG)}\.f\[', c.target) and 'eval_f' in (c.rhs or '')]
+        ok = len(tg) == 1 and fe and all(C.index(c) < C.index(tg[0]) for c in fe)
+        R.check(ok, f'{cn}.restrict :: coarse integral taken after the coarse f was re-evaluated', w, 'eval_f ... then G.sweep.integrate()', [c.describe()[:100] for c in tg])
+
+
+@rule('C10', 'C10.R4', 'stage order: down = transfer then mid-level sweeps then transfer; coarse sweep on the last level; up = prolong descending, sweeps only above level 0; transfer registry', floor=8)
+def r4(ctx, R):
+    repo = ctx.repo
+    for spec in (ct.NONMPI, ct.MPI):
+        _, hs = ct.handler_table(repo, spec)
+        S = 'self.S' if spec[1] == 'controller_MPI' else 'S'
+        # ---- down
+        h = hs['IT_DOWN']
+        R.fn(h.where)
+        tr = [(n, {k.arg: ast.unparse(k.value) for k in c.keywords}) for n, c in h.calls('transfer')]
+        first = [n for n, kw in tr if kw == {'source': f'{S}.levels[0]', 'target': f'{S}.levels[1]'}]
+        mid = [n for n, kw in tr if kw == {'source': f'{S}.levels[l]', 'target': f'{S}.levels[l + 1]'}]
+        ups = h.calls('update_nodes')
+        ok = len(tr) == 2 and len(first) == 1 and len(mid) == 1 and all(h.cfg.dominates(_a(h, first[0]), _a(h, n)) for n, _ in ups) and len(ups) == 1
+        if ok:
+            lp = [l for l in h.cfg.loops_of[id(h.cfg.stmt_of[ups[0][0]])] if isinstance(l.iter, ast.Call) and ast.unparse(l.iter.func) == 'range']
+            ok = bool(lp) and ast.unparse(lp[0].iter) in ('range(1, self.nlevels - 1)', 'range(1, len(self.S.levels) - 1)') and ast.unparse(ups[0][1].func.value) == f'{S}.levels[l].sweep'
+            # the onward transfer of level l follows its sweeps inside the same level loop
+            ok = ok and lp[0] in h.cfg.loops_of[id(h.cfg.stmt_of[mid[0]])] and not h.cfg.reachable(_a2(h, mid[0], lp[0]), ups[0][0], without=[h.cfg.node_of[id(lp[0])]])
+        R.check(ok, f'{spec[1]}.it_down :: restrict 0->1 first; sweeps only on middle levels 1..L-2; then restrict l->l+1', h.where, 'transfer(0,1); for l in 1..L-2: sweeps(l); transfer(l,l+1)', [kw for _, kw in tr])
+        # ---- coarse
+        h = hs['IT_COARSE']
+        R.fn(h.where)
+        ups = h.calls('update_nodes')
+        ok = len(ups) == 1 and ast.unparse(ups[0][1].func.value) == f'{S}.levels[-1].sweep' and not h.calls('transfer')
+        R.check(ok, f'{spec[1]}.it_coarse :: one sweep on the coarsest level, no transfer', h.where, f'{S}.levels[-1].sweep.update_nodes()', [ast.unparse(c.func) for _, c in ups])
+        # ---- up
+        h = hs['IT_UP']
+        R.fn(h.where)
+        tr = [(n, {k.arg: ast.unparse(k.value) for k in c.keywords}) for n, c in h.calls('transfer')]
+        ups = h.calls('update_nodes')
+        ok = len(tr) == 1 and tr[0][1] == {'source': f'{S}.levels[l]', 'target': f'{S}.levels[l - 1]'} and len(ups) == 1
+        if ok:
+            lp = [l for l in h.cfg.loops_of[id(h.cfg.stmt_of[tr[0][0]])] if isinstance(l.iter, ast.Call) and ast.unparse(l.iter.func) == 'range']
+            ok = bool(lp) and ast.unparse(lp[0].iter) in ('range(self.nlevels - 1, 0, -1)', 'range(len(self.S.levels) - 1, 0, -1)')
+            g = h.guard_strs(ups[0][0])
+            ok = ok and 'l - 1 > 0' in g and ast.unparse(ups[0][1].func.value) == f'{S}.levels[l - 1].sweep' and not h.cfg.reachable(ups[0][0], tr[0][0], without=[h.cfg.node_of[id(lp[0])]])
+        R.check(ok, f'{spec[1]}.it_up :: prolong l->l-1 descending; sweep on l-1 only if l-1 > 0, after the prolongation', h.where, 'for l = L-1..1: transfer(l, l-1); if l-1 > 0: sweeps(l-1)', [kw for _, kw in tr])
+    rel = 'pySDC/core/step.py'
+    fn = repo.func(rel, 'Step.connect_levels')
+    w = f'{rel}:Step.connect_levels'
+    R.fn(w)
+    cfg = FuncCFG(fn)
+    reg = {}
+    for n, s in cfg.stmt_of.items():
+        if isinstance(s, ast.Assign) and 'transfer_dict[' in ast.unparse(s.targets[0]):
+            key = ast.unparse(s.targets[0].slice)
+            reg.setdefault(key, []).append((ast.unparse(s.value), [ast.unparse(t) if p else f'not ({ast.unparse(t)})' for t, p in cfg.guards[id(s)]]))
+    want = {'(fine_level, coarse_level)': [('self.base_transfer.restrict', [])],
+            '(coarse_level, fine_level)': [('self.base_transfer.prolong_f', ['self.base_transfer.params.finter']), ('self.base_transfer.prolong', ['not (self.base_transfer.params.finter)'])]}
+    R.check(reg == want, 'Step.connect_levels :: (fine, coarse) -> restrict ; (coarse, fine) -> prolong_f iff finter else prolong', w, want, reg)
+    tf = repo.func(rel, 'Step.transfer')
+    src = ast.unparse(tf)
+    R.check('self._Step__transfer_dict[source, target]()' in src or '__transfer_dict[source, target]()' in src, 'Step.transfer :: dispatches on the (source, target) pair', f'{rel}:Step.transfer', '__transfer_dict[(source, target)]()', src[-120:])
+
+
+def _a(h, node):
+    st = h.cfg.stmt_of[node]
+    for l in h.cfg.loops_of[id(st)]:
+        if isinstance(l, ast.For) and ast.unparse(l.iter) in ('local_MS_running',):
+            return h.cfg.node_of[id(l)]
+    return node
+
+
+def _a2(h, node, within):
+    """outermost steps-loop header of node that still lies inside loop `within`"""
+    st = h.cfg.stmt_of[node]
+    lp = h.cfg.loops_of[id(st)]
+    if within in lp:
+        for l in lp[lp.index(within) + 1:]:
+            if isinstance(l, ast.For) and ast.unparse(l.iter) == 'local_MS_running':
+                return h.cfg.node_of[id(l)]
+    return node
